@@ -39,7 +39,7 @@ PROPS = {
     "C11": {
         "lean": ["GV.Props.C11"],
         "scenarios": [{"scn": "orch", "n": {"quick": 400, "thorough": 5000},
-                       "aspects": ["results", "driver", "build"]}],
+                       "aspects": ["results", "results-model", "driver", "build"]}],
         "rule": "all 21 Execute* methods, fresh engine or engine used by a previous call, returning / bare-return / silent / failing / failing-return rules; non-trivial = at least two rules started",
         "trusted_base": TB_COMMON,
         "assumptions": [],
@@ -77,3 +77,28 @@ PROPS = {
         "assumptions": ["injected functions terminate"],
     },
 }
+
+ORCH_NOTE = ("Model = skeleton regenerated from engine/gengine.go by /verif/extract on every run (T1); theorems hold for all "
+             "rule sets, outcomes, n/m, name lists and interleavings; rule bodies are opaque (their outcome is measured per rule "
+             "by the harness). Trusted: Lean kernel (axioms propext/Classical.choice/Quot.sound), extractor, harness gate "
+             "scheduler, comparator, WaitGroup/goroutine semantics as modelled by the counter LTS; Go scheduler fairness assumed.")
+
+MANIFEST_TEXT = {
+    "C04": {"text": "Proof: the extracted skeletons of Execute / ExecuteSelectedRules / ExecuteSelectedRulesWithControl are instances (rfl) of the sorted-family template, which conforms to the reference semantics for every configuration (order, exactly once, both error policies); differential runs of the real engine against model and spec find the replay when an obligation breaks.",
+            "note": ORCH_NOTE + " Sortedness of the installed list itself is C08's invariant.",
+            "technique": "Lean 4 conformance proof over regenerated orchestration skeleton + gate-scheduled differential runs"},
+    "C05": {"text": "Proof: (1) conformance of the ten mix / inverse-mix / N-M skeletons (which rules, which stage, both policies, all n/m, fan-outs well formed); (2) barrier theorem over the WaitGroup LTS for every stage plan and every interleaving; trace checker proved sound. Gate-scheduled runs of the real engine are replayed through the checker.",
+            "note": ORCH_NOTE, "technique": "Lean 4 conformance proof + invariant proof over interleaving LTS + gate-scheduled differential runs"},
+    "C09": {"text": "Proof (engine level): for every ResultsWF skeleton no execution method panics; extracted skeletons are ResultsWF by decide. Rule-level fault containment is checked by differential fault injection (see evidence).",
+            "note": ORCH_NOTE, "technique": "Lean 4 generic no-panic theorem over regenerated skeletons + fault-injection differential runs"},
+    "C11": {"text": "Proof: for every ResultsWF skeleton (all 21 extracted ones, by decide) the result-map write log is exactly the executed rules that returned, for an arbitrary previous map; differential runs compare the real map with the rules that actually ran and returned.",
+            "note": ORCH_NOTE, "technique": "Lean 4 generic invariant proof over regenerated skeletons + differential runs"},
+    "C12": {"text": "Proof: conformance of the eleven selected-rule skeletons to the reference semantics (selection = named existing rules in caller order, sorted / as-given / concurrent / mix / inverse / N-M variants, strict N-M guards).",
+            "note": ORCH_NOTE, "technique": "Lean 4 conformance proof over regenerated skeletons + differential runs"},
+    "C13": {"text": "Proof: conformance of the DAG skeleton (layers, occurrences, unknown names skipped, failure stops) + barrier theorem for every layering and interleaving.",
+            "note": ORCH_NOTE, "technique": "Lean 4 conformance proof + LTS barrier invariant + gate-scheduled differential runs"},
+    "C14": {"text": "Proof: conformance of the four stop-tag skeletons; corollaries: tag never set => identical to the plain variant; the setting rule is the last to run; mix runs nothing else.",
+            "note": ORCH_NOTE, "technique": "Lean 4 conformance proof over regenerated skeletons + differential runs"},
+}
+
+NOT_APPLICABLE = {}
